@@ -33,6 +33,7 @@ def coverage(prop, executed, rejected, tier):
     samples = [res["sample"] for res in executed[:2] if res.get("sample")]
     return {
         "evaluations": len(executed),
+        "productive_results_judged": int(total.get("molecules", 0)),
         "distinct_nontrivial": len(rich),
         "rule": RULE,
         "samples": samples,
